@@ -38,7 +38,7 @@ def norm_value(v: Any) -> Any:
         return {str(k): norm_value(x) for k, x in v.items()}
     if isinstance(v, (str, int, float, bool)) or v is None:
         return v
-    if hasattr(v, "data") and type(v).__name__.endswith(("DataType", "Collection", "Collection2")):
+    if type(v).__name__ == "NoDataType" or (hasattr(v, "data") and type(v).__name__.endswith(("DataType", "Collection", "Collection2"))):
         return norm_data(v)
     return {"__repr__": repr(v), "__type__": type(v).__name__}
 
@@ -82,7 +82,13 @@ def build_data(spec: Optional[Dict[str, Any]]):
 _NUM = re.compile(r"[-+]?(?:\d+\.\d*|\.\d+|\d+)(?:[eE][-+]?\d+)?")
 
 
+def _np_norm(s: str) -> str:
+    s = re.sub(r"np\.float64\(([^)]*)\)", r"\1", s)
+    return s.replace("np.True_", "True").replace("np.False_", "False").replace("float64", "float")
+
+
 def _str_close(a: str, b: str) -> bool:
+    a, b = _np_norm(a), _np_norm(b)
     a = re.sub(r"np\.float64\(([^)]*)\)", r"\1", a).replace("float64", "float")
     b = re.sub(r"np\.float64\(([^)]*)\)", r"\1", b).replace("float64", "float")
     if _NUM.sub("#", a) != _NUM.sub("#", b):
